@@ -22,8 +22,20 @@ impl Clone for EncryptionMessage {
 pub struct DiGraphMap<N, E> { p: core::marker::PhantomData<(N, E)> }
 impl<N, E> Default for DiGraphMap<N, E> {
     #[verifier::external_body]
-    fn default() -> (r: Self) { unimplemented!() }
+    fn default() -> (r: Self) ensures r.nodes() == Set::<N>::empty() { unimplemented!() }
 }
+impl<N, E> DiGraphMap<N, E> {
+    pub uninterp spec fn nodes(&self) -> Set<N>;
+    #[verifier::external_body]
+    pub fn contains_node(&self, n: N) -> (r: bool) ensures r == self.nodes().contains(n) { unimplemented!() }
+    #[verifier::external_body]
+    pub fn add_node(&mut self, n: N) -> (r: N) ensures final(self).nodes() == old(self).nodes().insert(n) { unimplemented!() }
+    // petgraph: "Inserts nodes a and/or b if they aren't already part of the graph"
+    #[verifier::external_body]
+    pub fn add_edge(&mut self, a: N, b: N, weight: E) -> (r: Option<E>) ensures final(self).nodes() == old(self).nodes().insert(a).insert(b) { unimplemented!() }
+}
+#[verifier::external_body]
+pub fn verif_graph_heads(g: &DiGraphMap<OperationId, ()>) -> (r: Vec<OperationId>) { unimplemented!() }
 
 // ---- contract-only VecDeque (assumed contract of the std dependency) ---------------------------
 #[verifier::external_body]
